@@ -93,6 +93,9 @@ func (w *World) Unary(ctx context.Context, in *Msg) (*Msg, error) {
 		w.Stray = append(w.Stray, "unary:"+s)
 		return S("stray"), nil
 	}
+	if r.Kind != "Unary" {
+		vsched.Fail("dispatch|wrong-method", "call %s was made to method %s, the server ran the unary handler", tag, r.Kind)
+	}
 	r.HStarts++
 	r.HReq = append(r.HReq, s)
 	r.HCtx = ctx
@@ -126,6 +129,11 @@ func (w *World) Stream(kind string, ss grpc.ServerStream) error {
 				return err
 			}
 		}
+	}
+	if r.Kind != kind {
+		// the handler of another method was invoked for this call (the tag travels with the call's
+		// metadata, the kind with the method the server dispatched to)
+		vsched.Fail("dispatch|wrong-method", "call %s was made to method %s, the server ran the handler of method %s", tag, r.Kind, kind)
 	}
 	r.HStarts++
 	r.HCtx = ss.Context()
